@@ -37,3 +37,258 @@ package mocrelay
 //@   serves C11
 //@   pure
 //@   ensures result == nipValidTag(tag)
+
+// ---------------------------------------------------------------------------------------------
+// message constructors and channel helpers (used by C09 C16 C17 C18 C19)
+
+//@ func NewServerOKMsg
+//@   serves C09 C16 C17 C18
+//@   writes nothing
+//@   ensures fresh(result) && result.EventID == eventID && result.Accepted == accepted && result.MsgPrefix == prefix && result.Msg == msg
+
+//@ func NewServerClosedMsg
+//@   serves C16 C17 C18
+//@   writes nothing
+//@   ensures fresh(result) && result.SubscriptionID == subID && result.MsgPrefix == prefix && result.Msg == msg
+
+//@ func NewServerClosedMsgf
+//@   serves C17 C18
+//@   writes nothing
+//@   ensures fresh(result) && result.SubscriptionID == subID && result.MsgPrefix == prefix
+
+//@ func NewServerEOSEMsg
+//@   serves C07 C16
+//@   writes nothing
+//@   ensures fresh(result) && result.SubscriptionID == subID
+
+//@ func NewServerEventMsg
+//@   serves C07 C16
+//@   writes nothing
+//@   ensures fresh(result) && result.SubscriptionID == subID && result.Event == event
+
+//@ func NewServerCountMsg
+//@   serves C07 C16
+//@   writes nothing
+//@   ensures fresh(result) && result.SubscriptionID == subID && result.Count == count && result.Approximate == approx
+
+//@ func newBufCh
+//@   serves C16 C17 C18
+//@   opt inst.T=ServerMsg
+//@   writes nothing
+//@   ensures fresh(result) && seqeq(chanbuf(result), items) && !chanclosed(result) && chancap(result) == len(items)
+//@   loop 1 as k
+//@     lwrites ret
+//@     invariant fresh(ret) && !chanclosed(ret) && chancap(ret) == len(items)
+//@     invariant len(chanbuf(ret)) == k && forall(j, 0, k, chanbuf(ret)[j] == items[j])
+
+//@ func newClosedBufCh
+//@   serves C16 C17 C18
+//@   opt inst.T=ServerMsg
+//@   writes nothing
+//@   ensures fresh(result) && seqeq(chanbuf(result), items) && chanclosed(result)
+
+//@ func Event.CreatedAtTime
+//@   serves C17
+//@   pure
+//@   ensures timeNs(result) == ite(ev == nil, 0, ev.CreatedAt * 1000000000)
+
+// ---------------------------------------------------------------------------------------------
+// C17: stateless limit middlewares
+
+//@ func simpleMaxReqFiltersMiddlewareBase.ServeNostrClientMsg
+//@   serves C17
+//@   requires m != nil && wfClientMsg(msg)
+//@   writes nothing
+//@   ensures result2 == nil
+//@   ensures respectsMaxFilters(m.maxFilters, msg) ==> forwardsOnly(result0, result1, msg)
+//@   ensures !respectsMaxFilters(m.maxFilters, msg) ==> rejectsSub(result0, result1, msg)
+
+//@ func simpleMaxLimitMiddlewareBase.ServeNostrClientMsg
+//@   serves C17
+//@   requires m != nil && wfClientMsg(msg)
+//@   writes nothing
+//@   ensures result2 == nil
+//@   ensures respectsMaxLimit(m.maxLimit, msg) ==> forwardsOnly(result0, result1, msg)
+//@   ensures !respectsMaxLimit(m.maxLimit, msg) ==> rejectsSub(result0, result1, msg)
+
+//@ func simpleMaxSubIDLengthMiddlewareBase.ServeNostrClientMsg
+//@   serves C17
+//@   requires m != nil && wfClientMsg(msg)
+//@   writes nothing
+//@   ensures result2 == nil
+//@   ensures respectsMaxSubIDLength(m.maxSubIDLength, msg) ==> forwardsOnly(result0, result1, msg)
+//@   ensures !respectsMaxSubIDLength(m.maxSubIDLength, msg) ==> rejectsSub(result0, result1, msg)
+
+//@ func simpleMaxEventTagsMiddlewareBase.ServeNostrClientMsg
+//@   serves C17
+//@   requires m != nil && wfClientMsg(msg)
+//@   writes nothing
+//@   ensures result2 == nil
+//@   ensures respectsMaxEventTags(m.maxEventTags, msg) ==> forwardsOnly(result0, result1, msg)
+//@   ensures !respectsMaxEventTags(m.maxEventTags, msg) ==> rejectsEvent(result0, result1, msg)
+
+//@ func simpleMaxContentLengthMiddlewareBase.ServeNostrClientMsg
+//@   serves C17
+//@   requires m != nil && wfClientMsg(msg)
+//@   writes nothing
+//@   ensures result2 == nil
+//@   ensures respectsMaxContentLength(m.maxContentLength, msg) ==> forwardsOnly(result0, result1, msg)
+//@   ensures !respectsMaxContentLength(m.maxContentLength, msg) ==> rejectsEvent(result0, result1, msg)
+
+//@ func simpleCreatedAtLowerLimitMiddlewareBase.ServeNostrClientMsg
+//@   serves C17
+//@   requires m != nil && wfClientMsg(msg)
+//@   requires -9223372036 <= m.lower && m.lower <= 9223372036
+//@   writes nothing
+//@   ensures result2 == nil
+//@   ensures respectsLower(m.lower, msg) ==> forwardsOnly(result0, result1, msg)
+//@   ensures !respectsLower(m.lower, msg) ==> rejectsEvent(result0, result1, msg)
+
+//@ func simpleCreatedAtUpperLimitMiddlewareBase.ServeNostrClientMsg
+//@   serves C17
+//@   requires m != nil && wfClientMsg(msg)
+//@   requires -9223372036 <= m.upper && m.upper <= 9223372036
+//@   writes nothing
+//@   ensures result2 == nil
+//@   ensures respectsUpper(m.upper, msg) ==> forwardsOnly(result0, result1, msg)
+//@   ensures !respectsUpper(m.upper, msg) ==> rejectsEvent(result0, result1, msg)
+
+//@ func simpleEventCreatedAtMiddlewareBase.ServeNostrClientMsg
+//@   serves C17
+//@   requires m != nil && wfClientMsg(msg)
+//@   writes nothing
+//@   ensures result2 == nil
+//@   ensures respectsWindow(m.from, m.to, msg) ==> forwardsOnly(result0, result1, msg)
+//@   ensures !respectsWindow(m.from, m.to, msg) ==> rejectsEvent(result0, result1, msg)
+
+//@ iface (EventMatcher).Match
+//@   params(m, event)
+//@   pure
+//@   ensures result == matches(m, event)
+
+//@ func simpleRecvEventAllowFilterMiddlewareBase.ServeNostrClientMsg
+//@   serves C17
+//@   requires m != nil && wfClientMsg(msg)
+//@   writes nothing
+//@   ensures result2 == nil
+//@   ensures respectsAllow(m.matcher, msg) ==> forwardsOnly(result0, result1, msg)
+//@   ensures !respectsAllow(m.matcher, msg) ==> rejectsEvent(result0, result1, msg)
+
+//@ func simpleRecvEventDenyFilterMiddlewareBase.ServeNostrClientMsg
+//@   serves C17
+//@   requires m != nil && wfClientMsg(msg)
+//@   writes nothing
+//@   ensures result2 == nil
+//@   ensures respectsDeny(m.matcher, msg) ==> forwardsOnly(result0, result1, msg)
+//@   ensures !respectsDeny(m.matcher, msg) ==> rejectsEvent(result0, result1, msg)
+
+// server messages pass every stateless middleware unchanged (C17)
+
+//@ func simpleEventCreatedAtMiddlewareBase.ServeNostrServerMsg
+//@   serves C17
+//@   writes nothing
+//@   ensures result1 == nil && holdsS(result0, msg)
+
+//@ func simpleMaxSubscriptionsMiddlewareBase.ServeNostrServerMsg
+//@   serves C17 C18
+//@   writes nothing
+//@   ensures result1 == nil && holdsS(result0, msg)
+
+//@ func simpleMaxReqFiltersMiddlewareBase.ServeNostrServerMsg
+//@   serves C17
+//@   writes nothing
+//@   ensures result1 == nil && holdsS(result0, msg)
+
+//@ func simpleMaxLimitMiddlewareBase.ServeNostrServerMsg
+//@   serves C17
+//@   writes nothing
+//@   ensures result1 == nil && holdsS(result0, msg)
+
+//@ func simpleMaxSubIDLengthMiddlewareBase.ServeNostrServerMsg
+//@   serves C17
+//@   writes nothing
+//@   ensures result1 == nil && holdsS(result0, msg)
+
+//@ func simpleMaxEventTagsMiddlewareBase.ServeNostrServerMsg
+//@   serves C17
+//@   writes nothing
+//@   ensures result1 == nil && holdsS(result0, msg)
+
+//@ func simpleMaxContentLengthMiddlewareBase.ServeNostrServerMsg
+//@   serves C17
+//@   writes nothing
+//@   ensures result1 == nil && holdsS(result0, msg)
+
+//@ func simpleCreatedAtLowerLimitMiddlewareBase.ServeNostrServerMsg
+//@   serves C17
+//@   writes nothing
+//@   ensures result1 == nil && holdsS(result0, msg)
+
+//@ func simpleCreatedAtUpperLimitMiddlewareBase.ServeNostrServerMsg
+//@   serves C17
+//@   writes nothing
+//@   ensures result1 == nil && holdsS(result0, msg)
+
+//@ func simpleRecvEventUniqueFilterMiddlewareBase.ServeNostrServerMsg
+//@   serves C17 C18
+//@   writes nothing
+//@   ensures result1 == nil && holdsS(result0, msg)
+
+//@ func simpleRecvEventAllowFilterMiddlewareBase.ServeNostrServerMsg
+//@   serves C17
+//@   writes nothing
+//@   ensures result1 == nil && holdsS(result0, msg)
+
+//@ func simpleRecvEventDenyFilterMiddlewareBase.ServeNostrServerMsg
+//@   serves C17
+//@   writes nothing
+//@   ensures result1 == nil && holdsS(result0, msg)
+
+// ---------------------------------------------------------------------------------------------
+// C17: the chain built from a NIP-11 document
+
+//@ func NewMaxSubscriptionsMiddleware
+//@   trusted the constructor is a function of its argument (names the middleware it returns); the wrapper closure is concurrent glue
+//@   pure
+//@   ensures result == mwMaxSubs(maxSubs)
+//@ func NewMaxReqFiltersMiddleware
+//@   trusted constructor is a function of its argument
+//@   pure
+//@   ensures result == mwMaxFilters(maxFilters)
+//@ func NewMaxLimitMiddleware
+//@   trusted constructor is a function of its argument
+//@   pure
+//@   ensures result == mwMaxLimit(maxLimit)
+//@ func NewMaxEventTagsMiddleware
+//@   trusted constructor is a function of its argument
+//@   pure
+//@   ensures result == mwMaxEventTags(maxEventTags)
+//@ func NewMaxContentLengthMiddleware
+//@   trusted constructor is a function of its argument
+//@   pure
+//@   ensures result == mwMaxContent(maxContentLength)
+//@ func NewCreatedAtLowerLimitMiddleware
+//@   trusted constructor is a function of its argument
+//@   pure
+//@   ensures result == mwLower(lower)
+//@ func NewCreatedAtUpperLimitMiddleware
+//@   trusted constructor is a function of its argument
+//@   pure
+//@   ensures result == mwUpper(upper)
+
+//@ func BuildMiddlewareFromNIP11
+//@   serves C17
+//@   pure
+//@   ensures (nip11 == nil || nip11.Limitation == nil) ==> islit(result, 1)
+//@   ensures (nip11 != nil && nip11.Limitation != nil) ==> islit(result, 2)
+
+//@ func BuildMiddlewareFromNIP11$1
+//@   serves C17
+//@   pure
+//@   ensures result == h
+
+//@ func BuildMiddlewareFromNIP11$2
+//@   serves C17
+//@   requires nip11 != nil && nip11.Limitation != nil
+//@   pure
+//@   ensures result == nip11Chain(nip11, h)
